@@ -78,20 +78,24 @@ def check_try(ctx, cfg, key, boxed):
     ctx.sample({"rule": "C07.O", "fn": key, "cfg": cfg, "facts_at_Ok": fstr(g["facts"])})
     # C07.P: the only poll outside the fill happens under full
     ctx.ob("C07.P", key, is_full(poll.facts), "the extra iter.next() is reached under %s; required: only when the destination is full" % fstr(poll.facts), at=poll.at, cfg=cfg)
-    # C07.H
-    ht = hint_terms(a)
+    # C07.H - judged per path (helpers inlined, loop-free part tree-shaped): an Err built before any fill call must be justified by the hint
+    at = ctx.analysis_inl(cfg, key, split=True)
+    ht = hint_terms(at)
     if ht is None:
         ctx.ob("C07.H", key, UNKNOWN, "size_hint pre-check not found (allowed, but then nothing to check)", at=b["at"], cfg=cfg, frozen=False)
     else:
         sh, lower, upper = ht
-        fill = [c for c in a.calls if c.key in K_EXT or c.fn == "core::iter::Extend::extend"]
-        early = [e for e in errs if fill and not a.dominates(fill[0].bb, e["site"][0])]
-        for i, e in enumerate(early):
-            pf = a.poly_facts(e["facts"])
+        _, errs_t = results(at)
+        fill = [c for c in at.calls if c.key in K_EXT or c.fn == "core::iter::Extend::extend"]
+        early = [e for e in errs_t if fill and not any(at.dominates(f.bb, e["site"][0]) for f in fill)]
+        bad = []
+        for e in early:
+            pf = at.poly_facts(e["facts"])
             gt = prove((">=", lower - N - 1), pf)
             lt = prove((">=", N - upper - 1), pf) and any(f[0] == "variant" and f[2] == 1 for f in e["facts"])
-            ctx.ob("C07.H", "%s#early_err#%d" % (key, i), gt or lt, "early Err under %s; required lower > N or (upper = Some(u), u < N)" % fstr(e["facts"]), at=b["at"], cfg=cfg)
-        ctx.floor("C07.H", "early size-hint rejections in %s (%s)" % (key.split("::")[-1], cfg), len(early), 2)
+            if not (gt or lt):
+                bad.append(fstr(e["facts"]))
+        ctx.ob("C07.H", "%s#early_err" % key, not bad, "%d early Err exit(s) (before any element is taken); each requires lower > N or (upper = Some(u), u < N); unjustified: %s" % (len(early), bad or "none"), at=b["at"], cfg=cfg)
     # C07.Z (call-site part)
     if not boxed:
         ex = [c for c in a.calls if c.key == "IntrusiveArrayBuilder<$0,$1>::extend"]
@@ -214,4 +218,4 @@ def check(ctx):
                     ok = bool(blds) and all(i in dropped for i in blds)
                     ctx.ob("C07.D", "%s#%s" % (K_TRY, c.fn), ok, "builder local(s) %s dropped on the unwind path of %s: %s" % (blds, c.fn, ok), at=c.at, cfg=cfg)
                     n += 1
-            ctx.floor("C07.D", "foreign calls with the builder live (%s)" % cfg, n, 2)
+            ctx.floor("C07.D", "foreign calls with the builder live (%s)" % cfg, n, 1)
